@@ -23,6 +23,7 @@ type Case struct {
 	Patches []string `json:"patches"`
 	Src     string   `json:"src"`
 	Note    string   `json:"note,omitempty"`
+	Chain   []string `json:"chain,omitempty"` // the individual changes, in order
 }
 
 func lcKey(fset *token.FileSet) func(token.Pos) int {
